@@ -22,7 +22,8 @@ TRUSTED = ['correspondence harness (pv.engine, pv.proto) and generators of pv.pr
            'Lean driver parser/printer and period tokenizer (PygModel/Basic.lean, DRangeDriver.lean, DRange.parsePeriod)']
 ASSUMPTIONS = ['dateutil.rrule(freq, interval=k>0, dtstart, until) enumerates dtstart + i*k units while <= until, from a dtstart without microseconds (drange puts the microseconds of t0 back, fix F14) (month-based units: day of month <= 28, time of day kept)',
                'datetime arithmetic agrees with integer microsecond arithmetic; CPython datetime ordinal/field arithmetic behaves as PygModel/Greg.lean (PygModel/Civil.lean is PROVED equal to Greg; still sampled through the bump op)',
-               'zero bumps and days of month > 28 with month-based single periods are outside the statement']
+               'days of month > 28 with month-based single periods are outside the statement; a ZERO bump (0, timedelta(0), \'0d\', \'0b\', '
+               '\'0m\' ...) with t0 != t1 is inside: no strictly monotone list starting at t0 exists, so ValueError is demanded (F16: \'0b\')']
 
 D = datetime.datetime
 TD = datetime.timedelta
@@ -144,6 +145,18 @@ def rand_spec(rng):
         span = rng.choice([1, 9, 40, 124, rng.randrange(1, 500)]) * DAY
         # keep the list short: at most ~1500 steps of the net movement of one bump
         net = abs(sum(int(p[:-1]) * NOMINAL[p[-1]] for p in period_parts(s)))
+        if any(p[-1] == 'b' for p in period_parts(s)):
+            # k business days are k .. k + 2 * (k // 5 + 1) calendar days, depending on the weekday: '3b-3d' stands still from a Monday, so
+            # '2s3b-3d' moves by two seconds a step there (a 124-day span was 5 million steps: implementation timeout, thorough seed 0)
+            lo = hi = 0
+            for p in period_parts(s):
+                k = int(p[:-1])
+                if p[-1] == 'b':
+                    a, b = abs(k) * 86400, (abs(k) + 2 * (abs(k) // 5 + 1)) * 86400
+                    lo, hi = (lo + a, hi + b) if k > 0 else (lo - b, hi - a)
+                else:
+                    lo, hi = lo + k * NOMINAL[p[-1]], hi + k * NOMINAL[p[-1]]
+            net = 1 if lo <= 0 <= hi else min(abs(lo), abs(hi))
         if net and span > 1500 * net * TD(seconds=1):
             span = 1500 * net * TD(seconds=1)
         t1 = t0 + sgn * span + (TD(0) if rng.random() < 0.7 or span < DAY else sgn * TD(hours=5))
@@ -159,11 +172,16 @@ def rand_spec(rng):
             span = rng.choice([0, 1, 2])
         t1 = t0 + sgn * span * DAY + (TD(0) if rng.random() < 0.7 else sgn * TD(hours=5))
         kind, bump = 'compound', (neg_str(s) if back else s)
+    if rng.random() < 0.02:     # a bump that stands still: every spelling of zero, either side, weekday or weekend start (F16: '0b')
+        bump = rng.choice([0, TD(0), '0d', '0w', '0h', '0n', '0s', '0m', '0q', '0y', '0b', '0b', '+0b', '-0b', '0B', '00b', '0d0h'])
+        t0 = rand_start(rng, True, dom28=True)
+        t1 = t0 + sgn * rng.choice([0, 1, 2, 3, 9, 30, rng.randrange(1, 400)]) * DAY
+        kind = 'zero'
     if t1 < D(1850, 1, 1) or t1 > D(2350, 1, 1):
         t1 = t0
     if t0 == t1:
         kind = 'equal-' + kind.split('-')[0]
-    elif kind == 'mixed':
+    elif kind in ('mixed', 'zero'):
         pass
     elif rng.random() < 0.12 and bump is not None:   # point the bump away from t1
         kind = 'away-' + kind.split('-')[0]
@@ -206,10 +224,11 @@ def generate(rng, tier):
         if isinstance(spec['bump'], str) and spec['bump'].lower().endswith('b'):
             continue
         yield dict(tag='calendar.drange', lines=[line_of(spec).replace('(drange run', '(drange crun')])
-    # zero bumps: outside the statement, kept as a visible divergence class only
-    for b in [0, TD(0), '0d', '0h', '0m', '0b']:
+    # zero bumps, both directions (also drawn at random by rand_spec): ValueError, never a list
+    for b in [0, TD(0), '0d', '0h', '0m', '0b', '-0b', '+0b']:
         t0 = rand_start(rng, True, dom28=True)
-        yield dict(tag='zero', lines=[line_of(dict(t0=t0, t1=t0 + 9 * DAY, bump=b))])
+        for sg in (1, -1):
+            yield dict(tag='zero', lines=[line_of(dict(t0=t0, t1=t0 + sg * 9 * DAY, bump=b))], expect='err ValueError')
 
 
 def new_state():
@@ -245,11 +264,14 @@ def run_line(state, sx):
 
 
 def compare(case, i, line, ir, mr):
+    exp = case.get('expect')
+    if exp is not None and not proto.same_reply(ir, exp):
+        return 'a bump that stands still must raise ValueError (no strictly monotone list starts at t0), got %s' % ir[:200]
     if proto.same_reply(ir, mr):
         return None
     tag = case.get('tag', '')
     msg = 'implementation %s, model %s' % (ir[:300], mr[:300])
-    if line.startswith('(drange bump') or tag.endswith('zero'):
+    if line.startswith('(drange bump'):
         return ('divergence', msg)
     return msg
 
@@ -320,9 +342,10 @@ def _laws(rng, tier, ctx):
                 yield bad("mixed-sign tenor '%s': expected %s, got %s" % (bump, want if isinstance(want, str) else 'the %d iterates of dt_bump' % len(want),
                                                                           res if isinstance(res, str) else 'a list of %d' % len(res)))
             continue
-        if kind.startswith('away'):
+        if kind.startswith('away') or kind == 'zero':
             if res != 'raise ValueError':
-                yield bad('a bump pointing away from t1 must raise ValueError, got %s' % (res if isinstance(res, str) else 'a list of %d' % len(res)))
+                yield bad('a bump %s must raise ValueError, got %s' % ('that stands still' if kind == 'zero' else 'pointing away from t1',
+                                                                       res if isinstance(res, str) else 'a list of %d starting at %s' % (len(res), res[0] if res else None)))
             continue
         if isinstance(res, str):
             yield bad('drange did not return a list: %s' % res)
